@@ -75,6 +75,7 @@ type unit struct {
 	mutated []*types.Var
 	state   int
 	fueled  bool         // contains a for-cond loop (or calls a function that does): takes (fuel : nat), returns option
+	curried bool         // returns a closure: the definition takes the closure's parameters too (callers are refused)
 	resTys  []types.Type // effective result types (an interface{} result all of whose returns have one concrete type has that type)
 }
 
@@ -194,6 +195,8 @@ type fctx struct {
 	recCl   map[types.Object]*recClosure // recursive closures in scope (recfn.go)
 	recFuel string                     // inside the body of a recursive closure: the fuel its recursive calls get
 	gotos   map[ast.Node]bool          // goto / label nodes of the supported search-loop pattern (recfn.go: searchGoto)
+	curried *types.Signature           // the function returns a closure of this signature: translated uncurried (curry.go)
+	curNames []string                  // Gallina names of the closure's parameters
 }
 
 // addOpq registers an opaque parameter of the function being translated; one name must have
@@ -666,20 +669,63 @@ func (c *fctx) function() {
 		params = append(params, prm{pn, c.coqTy(t, v.Pos())})
 	}
 	// results
-	u.resTys = c.effectiveResults(d, sig)
+	if inner := curriedSig(sig); inner != nil && c.mustUncurry(d.Body) {
+		// the function returns a closure: translated uncurried (curry.go)
+		u.curried = true
+		c.curried = inner
+		u.resTys = make([]types.Type, inner.Results().Len())
+		for i := range u.resTys {
+			u.resTys[i] = inner.Results().At(i).Type()
+		}
+		for i := 0; i < inner.Params().Len(); i++ {
+			v := inner.Params().At(i)
+			t := c.typeOf(v.Type(), d.Pos())
+			if t.k == kRec || t.k == kFunc {
+				c.fail(d.Pos(), "returned closure with a struct or function parameter")
+			}
+			name := v.Name()
+			if name == "" || name == "_" {
+				name = "arg"
+			}
+			for _, lit := range returnedLits(d.Body) {
+				if i < len(lit.Type.Params.List) && len(lit.Type.Params.List[i].Names) == 1 {
+					name = lit.Type.Params.List[i].Names[0].Name
+					break
+				}
+			}
+			pn := c.fresh(name)
+			c.curNames = append(c.curNames, pn)
+			params = append(params, prm{pn, c.coqTy(t, d.Pos())})
+		}
+	} else {
+		u.resTys = c.effectiveResults(d, sig)
+	}
 	c.resTys = u.resTys
 	u.fueled = c.needsFuel(d.Body) || hasRecClosure(d.Body)
+	if u.curried {
+		for _, lit := range returnedLits(d.Body) {
+			if c.needsFuel(lit.Body) || hasRecClosure(lit.Body) {
+				u.fueled = true
+			}
+		}
+	}
 	var rts []string
 	for _, v := range ptrs {
 		rts = append(rts, c.coqTy(c.typeOf(v.Type(), v.Pos()), v.Pos()))
 	}
 	named := false
-	for i := 0; i < sig.Results().Len(); i++ {
-		rv := sig.Results().At(i)
+	for i := 0; i < len(u.resTys); i++ {
 		t := c.typeOf(u.resTys[i], d.Pos())
 		rts = append(rts, c.coqTy(t, d.Pos()))
-		if rv.Name() != "" && rv.Name() != "_" {
-			named = true
+		if !u.curried {
+			if rv := sig.Results().At(i); rv.Name() != "" && rv.Name() != "_" {
+				named = true
+			}
+		}
+	}
+	if u.curried {
+		if rv := sig.Results().At(0); rv.Name() != "" && rv.Name() != "_" {
+			c.fail(d.Pos(), "named result of function type")
 		}
 	}
 	if len(rts) == 0 {
@@ -1058,6 +1104,9 @@ func (c *fctx) stmts(list []ast.Stmt, k func() string) string {
 	case *ast.BlockStmt:
 		return c.stmts(s.List, next)
 	case *ast.ReturnStmt:
+		if c.curried != nil && c.sig == c.u.obj.Type().(*types.Signature) {
+			return c.curriedReturn(s)
+		}
 		var vals []string
 		if len(s.Results) == 0 {
 			if c.sig.Results().Len() > 0 {
@@ -1101,6 +1150,9 @@ func (c *fctx) stmts(list []ast.Stmt, k func() string) string {
 		if ok && gd.Tok == token.CONST {
 			return next() // local constants are folded by go/types at their uses
 		}
+		if ok && gd.Tok == token.TYPE {
+			return next() // a local type declaration declares nothing to translate (uses of the type are checked where they occur)
+		}
 		if !ok || gd.Tok != token.VAR {
 			c.fail(s.Pos(), "local declaration other than var")
 		}
@@ -1136,6 +1188,9 @@ func (c *fctx) stmts(list []ast.Stmt, k func() string) string {
 		}
 		return out + next()
 	case *ast.AssignStmt:
+		if out, ok := c.assertOK(s); ok {
+			return out + next()
+		}
 		if c.u.fueled {
 			if out, ok := c.fueledAssign(s, next); ok {
 				return out
@@ -2499,6 +2554,9 @@ func (c *fctx) callee(f *types.Func, p token.Pos) *unit {
 	}
 	if cu.err != nil {
 		c.fail(p, "call of %s, which is not translatable: %v", cu.key, cu.err)
+	}
+	if cu.curried {
+		c.fail(p, "call of %s, which returns a closure (such a function is only translated uncurried, as a target of its own)", cu.key)
 	}
 	found := false
 	for _, d := range c.u.deps {
